@@ -57,6 +57,9 @@ BASE = [["usr"], ["usr", "lib"], ["usr", "bin"], ["usr", "share"], ["usr", "lib3
 LEAF = ["a", "b", "c", "conf", "lib", "x y", "ü", "d#new", ".keep"]
 
 
+FINDING_ALIAS = "C20-protected-dir-through-symlinked-path"
+ALIAS_MARK = " (through the listed directory"
+
 def gen_tables(repo):
     from pkgcore.merge import triggers
     seq = triggers.BaseSystemUnmergeProtection._preserve_sequence
@@ -493,7 +496,13 @@ def run_real(kind, tree, old, new=None, offset_arg=True, how="plain"):
             from pkgcore.merge import triggers
             for b in [[c for c in x.split("/") if c] for x in triggers.BaseSystemUnmergeProtection._preserve_sequence]:
                 if kind != "unmerge" and tuple(b) in pre and pre[tuple(b)]["k"] == "dir" and not os.path.isdir(sb.path(b)):
-                    oracle.append("protected base directory /%s (a directory before) was removed" % "/".join(b))
+                    # open finding: the protection compares listed locations literally, so a listed directory that names the protected
+                    # one through a symlinked path (/var/b/lib with /var/b -> ../usr) is removed
+                    here = os.path.join(os.path.realpath(sb.path(b[:-1])), b[-1])
+                    alias = [x["p"] for x in old if x["k"] == "dir" and list(x["p"]) != list(b) and x["p"]
+                             and os.path.join(os.path.realpath(sb.path(list(x["p"][:-1]))), x["p"][-1]) == here]
+                    oracle.append("protected base directory /%s (a directory before) was removed" % "/".join(b)
+                                  + (ALIAS_MARK + " /%s, which is the same directory on the live root)" % "/".join(alias[0]) if alias else ""))
             if kind == "replace":
                 # what the new package installed (as the kernel sees it at the entry's own path, right after the merge)
                 # must be exactly the same after the unmerge of the old package
@@ -722,7 +731,8 @@ def process(ctx, cases, probe=False):
                 ctx.count("symlinked_case_with_complex_links_not_claimed")
             r["oracle"] = protected_gone if literal else []
         if r["oracle"]:
-            ctx.violation(case, "; ".join(r["oracle"][:3]))
+            ctx.violation(case, "; ".join(r["oracle"][:3]),
+                          finding=FINDING_ALIAS if all(ALIAS_MARK in o for o in r["oracle"]) else None)
         elif res == "ok" and literal and sp:
             # the merge half of a replace is C18's business; only claim the unmerge half when the merge is in C18's scope
             ctx.violation(case, "Lean spec clauses failing on the real snapshots: %s" % sp)
